@@ -71,7 +71,7 @@ func c15(x *ctx) {
 		}
 	}
 	rec(nil)
-	bodies := []string{"ret-param", "to_s", "plus", "upcase", "early-return"}
+	bodies := []string{"ret-param", "to_s", "plus", "upcase", "early-return", "as-argument"}
 	arrangements := []string{"def-first", "calls-first", "calls-in-method", "via-second-method"}
 	for _, tu := range tuples {
 		u := union(tu)
@@ -127,6 +127,22 @@ func c15(x *ctx) {
 					case "early-return":
 						line("  return 2.5 if a == 1")
 						line("  :sym")
+					case "as-argument":
+						// the parameter is the argument of a configured operation that takes a String
+						line("  \"id\" + a")
+						allStr, noStr := true, true
+						for _, t := range tu {
+							if t == "String" {
+								noStr = false
+							} else {
+								allStr = false
+							}
+						}
+						if allStr {
+							probes = append(probes, probe{row: row, wantDiag: 0, what: "body-arg-accepted-for-all"})
+						} else if noStr {
+							probes = append(probes, probe{row: row, wantDiag: 1, what: "body-arg-rejected-for-all"})
+						}
 					}
 					line("end")
 					probes = append(probes, probe{row: defRow, want: u, wantDiag: -1, what: "signature-param", isSigParam: true})
